@@ -1,7 +1,7 @@
 #!/bin/sh
 # selftest/batch.sh Cxx ... : run every delivered mutant of the given properties through its own property check
 for P in "$@"; do
-  for i in 1 2; do
+  for i in 1 2 3; do
     D=/tmp/mut/$P/OUT/mutant$i.diff
     [ -f "$D" ] || continue
     echo "=== $P mutant $i"
